@@ -17,7 +17,7 @@ Terms (plain tuples, structurally comparable):
 """
 from .kernel import norm, op_place
 
-MAX_PATHS = 60000
+MAX_PATHS = int(__import__('os').environ.get('VERIF_MAX_PATHS', '250000'))
 
 
 INT_IMPL_PREFIXES = tuple('<%s as ' % t_ for t_ in ('u8', 'u16', 'u32', 'u64', 'u128', 'usize', 'i8', 'i16', 'i32', 'i64', 'i128', 'isize', 'std::time::Instant', 'std::time::Duration'))
